@@ -39,6 +39,9 @@ AGGFN = {"count": "FCount", "sum": "FSum", "avg": "FAvg", "min": "FMin", "max": 
 def f_sf(f, F):
     if f[0] == "count_star":
         return F.count("*")
+    if f[0] == "count_distinct_n":       # count_distinct / countDistinct over several columns
+        args = [e[1] if (e[0] == "col" and hash(e[1]) % 2) else rel.e_sf(e, F) for e in f[1]]
+        return (F.countDistinct if len(repr(f)) % 2 else F.count_distinct)(*args)
     e = f[1]
     arg = e[1] if (e[0] == "col" and hash(e[1]) % 2) else rel.e_sf(e, F)   # both call forms: name and Column
     return getattr(F, f[0])(arg)
@@ -54,6 +57,8 @@ def x_sf(x, F):
     k = x[0]
     if k == "agg":
         return f_sf(x[1], F)
+    if k == "gid":
+        return F.grouping_id()
     if k == "xlit":
         return F.lit(x[1])
     if k == "xbin":
@@ -81,11 +86,53 @@ def key_args(keys, F):
     return out
 
 
-def apply_call(gd_or_df, call, F, grouped):
+def warm_plan(step):
+    """key list of the warm-up call that uses the aggregate Column objects first; None = no warm-up"""
+    k = step[0]
+    inner = step[2] if k == "cube" else step
+    if inner[0] != "agg" or (k == "agg" and step[1] == "dfagg"):
+        return None
+    has_gid = any(x[0] == "gid" for x, _ in inner[3])
+    if not has_gid and len(repr(step)) % 2:
+        return None
+    keys = step[1] if k == "cube" else step[2]
+    names = [kk for kk in keys if kk[2] in ("name", "col")]
+    if len(names) >= 2:
+        return ("cube" if k == "cube" else "groupBy", list(reversed(names)))
+    return ("cube" if k == "cube" else "groupBy", "other")
+
+
+def _warm(df, step, F):
+    wp = warm_plan(step)
+    if wp is None:
+        return None
+    kind, keys = wp
+
+    def run(cols):
+        if keys == "other":
+            used = {kk[1] for kk in (step[1] if step[0] == "cube" else step[2])}
+            cand = [c for c in df.columns if c not in used and "(" not in c]
+            args = cand[:1]
+        else:
+            args = key_args(keys, F)
+        gd = df.cube(*args) if kind == "cube" else df.groupBy(*args)
+        gd.agg(*cols)
+    return run
+
+
+def apply_call(gd_or_df, call, F, grouped, warm=None):
     """call on a GroupedData (grouped=True) or, for via == 'dfagg', on the DataFrame itself"""
     k = call[0]
     if k == "agg":
-        return gd_or_df.agg(*[x_sf(x, F).alias(n) for x, n in call[3]])
+        cols = [x_sf(x, F).alias(n) for x, n in call[3]]
+        if warm is not None:
+            # the SAME Column objects go through another agg call first (other key list): agg must not depend on the
+            # history of its argument objects (nor change them observably)
+            try:
+                warm(cols)
+            except Exception:
+                pass
+        return gd_or_df.agg(*cols)
     if k == "short":
         return getattr(gd_or_df, call[2])(*(call[3] if call[4] else []))
     if k == "count":
@@ -104,14 +151,14 @@ def apply_step(df, step, F, df0):
     if k == "op":
         return c01.apply_step(df, step[1], F)
     if k == "cube":
-        return apply_call(df.cube(*key_args(step[1], F)), step[2], F, True)
+        return apply_call(df.cube(*key_args(step[1], F)), step[2], F, True, _warm(df, step, F))
     if k == "join":
         return df.join(df0, step[1])
     via = step[1] if k in ("agg", "dict") else "groupBy"
     if via == "dfagg":
         return apply_call(df, step, F, False)
     keys = step[call_keys(step)]
-    return apply_call(df.groupBy(*key_args(keys, F)), step, F, True)
+    return apply_call(df.groupBy(*key_args(keys, F)), step, F, True, _warm(df, step, F) if k == "agg" else None)
 
 
 # ---- descriptors -> Coq ----------------------------------------------------------------------------------
@@ -119,6 +166,8 @@ def apply_step(df, step, F, df0):
 def f_coq(f):
     if f[0] == "count_star":
         return "FCountStar"
+    if f[0] == "count_distinct_n":
+        return f"(FCountDistinctN {listlit([rel.e_coq(e) for e in f[1]])})"
     return f"({AGGFN[f[0]]} {rel.e_coq(f[1])})"
 
 
@@ -126,6 +175,8 @@ def x_coq(x):
     k = x[0]
     if k == "agg":
         return f"(XAgg {f_coq(x[1])})"
+    if k == "gid":
+        return "(XGroupingId [])"
     if k == "xlit":
         return f"(XLit {rel.val_coq(x[1])})"
     if k == "xbin":
@@ -171,6 +222,8 @@ def step_coq(step, cols):
 
 
 def f_str(f):
+    if f[0] == "count_distinct_n":
+        return "count_distinct(" + ", ".join(rel.e_str(e) for e in f[1]) + ")"
     return "count(*)" if f[0] == "count_star" else f"{f[0]}({rel.e_str(f[1])})"
 
 
@@ -178,6 +231,8 @@ def x_str(x):
     k = x[0]
     if k == "agg":
         return f_str(x[1])
+    if k == "gid":
+        return "grouping_id()"
     if k == "xlit":
         return repr(x[1])
     if k == "xbin":
@@ -222,14 +277,14 @@ def x_type(x, cols):
     k = x[0]
     if k == "agg":
         f = x[1]
-        if f[0] in ("count_star", "count", "count_distinct"):
+        if f[0] in ("count_star", "count", "count_distinct", "count_distinct_n"):
             return "int"
         if f[0] == "avg":
             return "rat"
         if f[0] == "sum":
             return "int"
         return c01.type_of(f[1], cols)
-    if k == "xlit":
+    if k in ("xlit", "gid"):
         return "int"
     if k == "xbin":
         return "int" if x[1] in ("Add", "Sub", "Mul") else "bool"
@@ -312,8 +367,12 @@ def plan_mode(steps, cols0):
 
 # ---- exporter: sqlglot tree -> Coq `list stage` (tie T2, fail-closed) ----------------------------------------
 
+def _is_gid(n, exp):
+    return isinstance(n, exp.Anonymous) and isinstance(n.this, str) and n.this.upper() == "GROUPING_ID"
+
+
 def has_agg(n, exp):
-    return any(True for _ in n.find_all(exp.AggFunc))
+    return any(True for _ in n.find_all(exp.AggFunc)) or any(_is_gid(a, exp) for a in n.find_all(exp.Anonymous))
 
 
 def xa_expr(n, exp, cte_names):
@@ -326,8 +385,10 @@ def xa_expr(n, exp, cte_names):
         if isinstance(t, exp.Star):
             return "(XAgg FCountStar)"
         if isinstance(t, exp.Distinct):
-            if len(t.expressions) != 1 or t.args.get("on"):
-                raise rel.NotExportable("count(distinct ...) over several expressions")
+            if t.args.get("on") or not t.expressions:
+                raise rel.NotExportable("count(distinct on ...)")
+            if len(t.expressions) > 1:
+                return f"(XAgg (FCountDistinctN {listlit([rel.x_expr(e, exp, cte_names) for e in t.expressions])}))"
             return f"(XAgg (FCountDistinct {rel.x_expr(t.expressions[0], exp, cte_names)}))"
         return f"(XAgg (FCount {rel.x_expr(t, exp, cte_names)}))"
     for cls, c in ((exp.Sum, "FSum"), (exp.Avg, "FAvg"), (exp.Min, "FMin"), (exp.Max, "FMax")):
@@ -335,6 +396,8 @@ def xa_expr(n, exp, cte_names):
             if n.args.get("expressions") or isinstance(n.this, exp.Distinct):
                 raise rel.NotExportable(f"{c} with extra arguments")
             return f"(XAgg ({c} {rel.x_expr(n.this, exp, cte_names)}))"
+    if _is_gid(n, exp):
+        return f"(XGroupingId {listlit([rel.x_expr(e, exp, cte_names) for e in n.expressions])})"
     if isinstance(n, exp.AggFunc):
         raise rel.NotExportable(f"aggregate {type(n).__name__}")
     binmap = {"Add": "Add", "Sub": "Sub", "Mul": "Mul", "EQ": "Eq", "NEQ": "Neq", "LT": "Lt", "LTE": "Le", "GT": "Gt", "GTE": "Ge"}
@@ -462,7 +525,13 @@ class Gen:
         ints = [c for c, t in cols.items() if t == "int"]
         strs = [c for c, t in cols.items() if t == "str"]
         k = r.random()
-        if k < 0.12 or not (ints or strs):
+        if k < 0.10 and len(cols) >= 2:       # count(distinct e1, e2[, e3]): combinations without a NULL member
+            n = 2 if r.random() < 0.8 or len(cols) < 3 else 3
+            es = [("col", c) for c in r.sample(list(cols), n)]
+            if ints and r.random() < 0.3:
+                es[-1] = self.g.int_e(cols, 1)
+            return ("count_distinct_n", es)
+        if k < 0.2 or not (ints or strs):
             return ("count_star",)
         if ints and k < 0.8:
             e = ("col", r.choice(ints)) if r.random() < 0.75 else self.g.int_e(cols, 1)
@@ -578,6 +647,8 @@ class Gen:
 
         if r.random() < 0.25:       # multi-letter column names
             wide = r.sample([("a", "key"), ("b", "val"), ("s", "tag"), ("a", "v"), ("b", "amount")], r.randint(2, 4))
+            if r.random() < 0.4:        # mixed case: the spelling must survive in fn(col) names
+                wide = [(c, n.capitalize()) for c, n in wide]
             st = ("select", [(("col", c), n) for c, n in wide])
             steps.append(("op", st))
             cols = c01.cols_after(st, cols)
@@ -587,6 +658,10 @@ class Gen:
             keys = self.keys(cols, allow_empty=False)
             keys = [kk for kk in keys if kk[2] != "alias" or True]
             inner = self.call(cols)
+            if inner[0] == "agg" and r.random() < 0.45:      # the level indicator of the cube
+                aggs = list(inner[3])
+                aggs.insert(r.randint(0, len(aggs)), (("gid",), self.fresh()))
+                inner = ("agg", "groupBy", [], aggs)
             if inner[0] in ("agg", "dict"):
                 inner = (inner[0], "groupBy", [], inner[3])
             elif inner[0] == "short":
@@ -612,7 +687,8 @@ C = lambda n: ("col", n)  # noqa: E731
 A = lambda f, *a: ("agg", (f, *a))  # noqa: E731
 ALLFNS = [(A("count_star"), "n"), (A("count", C("b")), "cb"), (A("sum", C("b")), "sb"), (A("avg", C("b")), "ab"),
           (A("min", C("b")), "mnb"), (A("max", C("b")), "mxb"), (A("count_distinct", C("b")), "db"),
-          (A("min", C("s")), "mns"), (A("max", C("s")), "mxs"), (A("count", C("s")), "cs")]
+          (A("min", C("s")), "mns"), (A("max", C("s")), "mxs"), (A("count", C("s")), "cs"),
+          (A("count_distinct_n", [C("b"), C("s")]), "dbs")]
 KA, KS, KB = (C("a"), "a", "name"), (C("s"), "s", "col"), (C("b"), "b", "name")
 KEXP = (("bin", "Add", C("a"), ("lit", 1)), "k", "alias")
 KBOOL = (("bin", "Gt", C("a"), ("lit", 1)), "p", "alias")
@@ -655,6 +731,22 @@ def corpus():
     P.append([("cube", [KA], ("short", [], "sum", ["b"], True))])
     P.append([("cube", [KB, (("bin", "Mul", C("b"), ("lit", 1)), "g", "alias")], ("agg", "groupBy", [], nsb))])
     P.append([("cube", [(("bin", "Add", C("b"), C("a")), "g", "alias"), KA], ("count", []))])
+    # grouping_id(): the level indicator, with the aggregate Column objects used in another cube first
+    GID = [(("gid",), "lvl"), (A("count_star"), "n"), (A("sum", C("b")), "sb")]
+    for keys in ([KA], [KA, KS], [KS, KA], [KA, KB, KS], [KB, KS]):
+        P.append([("cube", keys, ("agg", "groupBy", [], GID))])
+    P.append([W_POS, ("cube", [KS, KB], ("agg", "groupBy", [], [(A("max", C("a")), "m"), (("gid",), "g")])), OP("where", ("bin", "Gt", C("g"), ("lit", 0)))])
+    P.append([W_NONE, ("cube", [KA, KS], ("agg", "groupBy", [], GID))])
+    P.append([("cube", [KS, (C("a"), "k2", "alias")], ("agg", "groupBy", [], GID))])
+    P.append([("cube", [KEXP], ("agg", "groupBy", [], GID))])
+    # count(distinct ...) over several columns, NULL members
+    CD = [(A("count_distinct_n", [C("b"), C("s")]), "d2"), (A("count_distinct_n", [C("s"), C("a"), C("b")]), "d3"),
+          (A("count_distinct_n", [C("s"), ("bin", "Add", C("b"), ("lit", 1))]), "dx"), (A("count_distinct", C("s")), "d1")]
+    for keys in ([KA], [], [KS, KA]):
+        P.append([("agg", "groupBy", keys, CD)])
+    P.append([("agg", "dfagg", [], CD)])
+    P.append([("cube", [KA], ("agg", "groupBy", [], CD[:2]))])
+    P.append([W_NONE, ("agg", "dfagg", [], CD)])
     # three keys (2**3 grouping sets), cube after every SELECT-class step (cube itself carries no decorator)
     P.append([("cube", [KA, KB, KS], ("agg", "groupBy", [], nsb))])
     P.append([("cube", [KEXP, KS, KB], ("count", []))])
@@ -705,6 +797,21 @@ def corpus():
     P.append([WIDE, ("cube", [(C("key"), "key", "name"), (C("tag"), "tag", "name")], ("dict", "groupBy", [], [("val", "sum")]))])
     P.append([WIDE, ("agg", "groupBy", [(C("key"), "key", "col"), (C("tag"), "tag", "name")],
                      [(A("sum", C("val")), "total"), (A("count_distinct", C("v")), "dv")]), OP("where", ("bin", "Gt", C("total"), ("lit", 1)))])
+    # mixed-case column names: fn(col) keeps the spelling the user wrote
+    MIX = OP("select", [(C("a"), "Key"), (C("b"), "Val"), (C("s"), "Tag"), (C("b"), "val2")])
+    KK = (C("Key"), "Key", "name")
+    for m in SHORT:
+        P.append([MIX, ("short", [KK], m, ["Val"], True)])
+    P.append([MIX, ("short", [], "avg", ["Val", "Key"], True)])
+    P.append([MIX, ("short", [(C("Tag"), "Tag", "col")], "min", ["Val", "Key", "val2"], True)])
+    for f in ("sum", "max", "count", "avg"):
+        P.append([MIX, ("dict", "groupBy", [KK], [("Val", f)])])
+    P.append([MIX, ("dict", "dfagg", [], [("Val", "min")])])
+    P.append([MIX, ("dict", "groupBy", [], [("Tag", "count")])])
+    P.append([MIX, ("count", [KK, (C("Tag"), "Tag", "name")])])
+    P.append([MIX, ("agg", "groupBy", [KK], [(A("sum", C("Val")), "Total"), (A("count_star"), "N")]), OP("where", ("bin", "Gt", C("Total"), ("lit", 1)))])
+    P.append([MIX, ("cube", [KK, (C("Tag"), "Tag", "name")], ("short", [], "sum", ["Val"], True))])
+    P.append([OP("rename", "b", "Amount"), ("short", [KA], "max", ["Amount"], True)])
     # re-aggregation and join
     P.append([("agg", "groupBy", [KA, KS], nsb), ("agg", "groupBy", [KA], [(A("sum", C("n")), "nn"), (A("max", C("sb")), "m")])])
     P.append([("agg", "groupBy", [KA], nsb), ("agg", "dfagg", [], [(A("sum", C("sb")), "tot"), (A("count_star"), "groups")])])
@@ -752,6 +859,10 @@ def make_programs(ctx):
 # ---- verdicts -------------------------------------------------------------------------------------------------
 
 def _x_refs(x):
+    if x[0] == "gid":
+        return set()
+    if x[0] == "agg" and x[1][0] == "count_distinct_n":
+        return set().union(*[rel.e_cols(e) for e in x[1][1]])
     if x[0] == "agg":
         return set() if x[1][0] == "count_star" else rel.e_cols(x[1][1])
     out = set()
@@ -815,6 +926,9 @@ def signature(steps, flags):
         if inner[0] == "short" and not inner[4]:
             return "C06/shortcut-without-columns-raises" if flags.get("raised") else "C06/shortcut-without-columns-differs"
     for s in calls:
+        if s[0] == "cube" and s[2][0] == "agg" and any(x[0] == "gid" for x, _ in s[2][3]) and any(k[2] == "alias" for k in s[1]) \
+                and flags.get("raised"):
+            return "C06/grouping_id-with-aliased-cube-key-raises"
         if s[0] == "cube":
             plain = {k[0][1] for k in s[1] if k[0][0] == "col"}
             if any(k[0][0] != "col" and rel.e_cols(k[0]) and rel.e_cols(k[0]) <= plain for k in s[1]):
@@ -869,6 +983,19 @@ def case_coq(steps, rows, mode, lim, exported, impl):
     impl_t = "None" if impl is None else \
         f"(Some ({listlit([strlit(c) for c in impl[0]])}, {listlit([rel.row_coq(r) for r in impl[1]])}))"
     return f"(mkCase {rel.frame_coq(COLS0, rows)} {listlit(sc)} {cm} {exported} {impl_t})"
+
+
+def has_upper_names(steps):
+    """some column name of the program has an upper-case letter (the SQL tree holds normalised identifiers, so T2 is skipped)"""
+    cols = {"a": "int", "b": "int", "s": "str"}
+    cols0 = dict(cols)
+    for st in steps:
+        cols = cols_after(st, cols, cols0)
+        if cols is None:
+            return False
+        if any(c != c.lower() for c in cols):
+            return True
+    return False
 
 
 def well_formed(steps):
@@ -950,7 +1077,7 @@ def run(ctx: core.Ctx):
             if key in seen:
                 continue
             seen.add(key)
-            res = run_case(session, F, exp, steps, rows)
+            res = run_case(session, F, exp, steps, rows, want_export=not has_upper_names(steps))
             n_raise += res["impl"] is None
             items.append(case_coq(steps, rows, mode, lim, res["exported"], res["impl"]))
             metas.append({"steps": steps, "table": tname, "mode": mode, "exc": res["exc"], "exported": res["exported"] != "None",
@@ -983,7 +1110,9 @@ def run(ctx: core.Ctx):
         desc = {"program": [step_str(s) for s in m["steps"]], "table": m["table"], "rows": TABLES[m["table"]], "mode": m["mode"],
                 "verdict(t2,impl=model,impl=spec,model=spec,in_domain,raised)": r, "exception": m["exc"],
                 "got": None if m["impl"] is None else {"columns": m["impl"][0], "rows": m["impl"][1][:40]},
-                "steps_json": m["steps"], "coq_case": it}
+                "steps_json": m["steps"], "coq_case": it,
+                "column_object_reuse": [f"{step_str(s)}: aggregate Column objects first used in {w[0]}({w[1] if w[1] == 'other' else keys_str(w[1])}).agg(...)"
+                                        for s in m["steps"] if s[0] != "op" for w in [warm_plan(s)] if w]}
         if raised or not isp:
             flags = {"raised": raised, "exc": (m["exc"] or "?").split(":")[0], "cube_on_empty": m["cube_on_empty"], "impl_is_model": im}
             sig = signature(m["steps"], flags)
@@ -1092,6 +1221,8 @@ def _sig_hist(ctx):
 
 
 def _aggfns(x):
+    if x[0] == "gid":
+        return ["grouping_id"]
     if x[0] == "agg":
         return [x[1][0]]
     out = []
